@@ -26,18 +26,24 @@ CORE_TOL = 1e-3       # the property's bound for the core of an outwards-blurred
 
 RULE = ("shape cases: constructor calls (spherical/cylindrical/ellipsoid/_shell masks) on non-cubic boxes 6..16 (quick; plus one hard and one soft box "
         "with sizes up to 48 in every run) / 6..48 (thorough) per axis "
-        "(even sizes for ellipsoids), centre default or anywhere in the box incl. faces, radii/heights from 1 to beyond the box (spheres also "
+        "(even sizes for ellipsoids), centre default or any integer voxel of the box incl. faces, radii/heights from 1 to beyond the box (heights also as "
+        "floats: 6.0, np.float64, h + 0.5; spheres also "
         "quarter/half-integer radii; dedicated streams: radius >= max(box) with a corner centre, heights = 3 mod 4, outward blurs of small ellipsoids "
         "with sigma >= 1.5), Gaussian width 0, {0.5,..,3} or a decimal with 1-3 places in (0,3] with both edge modes; ~30 % of the keywords whose value "
         "is the default are omitted; arguments written as lists, tuples, numpy arrays, scalars (cubic boxes, equal radii) or numpy scalars, angles "
         "explicitly None / zero; every voxel is compared. name cases: parse_shape_string + generate_mask (leading zeros, given/default size and expansion). algebra cases: "
-        "union/intersection/subtraction/difference of 1..5 binary masks of dtype float64/float32/bool/uint8/int8 (also mixed, also built by the "
+        "union/intersection/subtraction/difference of 1..5 binary masks of dtype float64/float32/bool/uint8/int8 (also mixed, also given as PATHS of MRC "
+        "files .mrc/.rec/.st/.ali/.mrc.N written with mrcfile, also built by the "
         "library's constructors) or soft float64/float32 masks. session cases: several calls in ONE process that share caller-owned objects "
         "(the same list and ndarrays through all four functions, rewritten in place between calls; the same shape name for different box sizes; "
         "the same mask_size/center/radii arrays for several constructors). non-trivial = hard mask holding both values with a non-default centre or "
         "clipped by the box, or a soft mask, or an algebra call on >=2 masks whose result holds both 0 and 1, or a session of >= 2 calls; "
         "distinct = distinct case content")
 ASSUMPTIONS = [
+    "centres are integer voxel coordinates: the docstrings of spherical_mask / cylindrical_mask say `center : array-like ... Type int` and every "
+    "constructor gives the example (32, 32, 32); 'centres anywhere in the box' is read as every voxel of the box.  A fractional centre is outside the "
+    "quantifier and is not generated (observation, audit 3: get_correct_format cuts it with .astype(int), e.g. center=[3.5]*3 gives the mask of "
+    "(3,3,3) - the mechanism of C13-K3)",
     "numpy float64 evaluation of sqrt(d2) > r and of the slab bounds equals exact rational evaluation on integer voxel coordinates and dyadic radii; "
     "for ellipsoids only the voxels exactly on the surface (rational sum == 1) whose float64 sum (z+y)+x of correctly rounded quotients exceeds 1 are "
     "excluded as ties (computed per case, counted in the histograms)",
@@ -183,7 +189,7 @@ DOC_BODY = {'parse_shape_string': ["v0={'sphere':'^sphere_r(\\\\d+)$','cylinder'
                       'if:heightisNone',
                       'height=mask_size[2]',
                       'end',
-                      'height=height//2',
+                      'height=int(height//2)',
                       'radius=preprocess_params(radius,gaussian,gaussian_outwards)',
                       'height=preprocess_params(height,gaussian,gaussian_outwards)',
                       'v0,v1=np.mgrid[0:mask_size[0]:1,0:mask_size[1]:1]',
@@ -460,10 +466,17 @@ def _canon(fn, back=None):
                 n.arg = names[n.arg]
             elif isinstance(n, ast.ExceptHandler) and n.name in names:
                 n.name = names[n.name]
-    out = []
+    lines, cur = [], [getattr(fn, "lineno", 0)]
+
+    class _Rec(list):      # every canonical statement remembers the source line it came from (diagnostics only)
+        def append(self, x):
+            list.append(self, x)
+            lines.append(cur[0])
+    out = _Rec()
 
     def walk(body):
         for st in body:
+            cur[0] = getattr(st, "lineno", cur[0])
             if isinstance(st, ast.Expr) and isinstance(st.value, ast.Constant) and isinstance(st.value.value, str):
                 continue
             if isinstance(st, (ast.FunctionDef, ast.AsyncFunctionDef)):
@@ -503,7 +516,30 @@ def _canon(fn, back=None):
             else:
                 out.append(core.norm_expr(st).replace("\n", ""))
     walk(fn.body)
-    return sig, out
+    if back is not None:
+        back["__lines__"] = lines
+    return sig, list(out)
+
+
+def _explain(src, rel, fn, key, sig, body, back):
+    """first-hand diagnostic for a broken `..._source_documented` obligation: the first canonical statement that differs from the documented
+    one, mapped back to the source line (file:line and its text) and to the original identifiers"""
+    def orig(t):
+        return re.sub(r"\bv\d+\b", lambda m: str(back.get(m.group(0), m.group(0))), t)
+    if sig != DOC_SIG[key]:
+        raise core.AnchorMissing(f"{rel}: signature of {fn} is now ({', '.join(sig)}), documented ({', '.join(DOC_SIG[key])})")
+    doc = DOC_BODY[key]
+    i = next((i for i, (x, y) in enumerate(zip(body, doc)) if x != y), min(len(body), len(doc)))
+    lines = back.get("__lines__") or []
+    ln = lines[i] if i < len(lines) else (lines[-1] if lines else 0)
+    try:
+        text = src.text(rel).splitlines()[ln - 1].strip() if ln else ""
+    except Exception:
+        text = ""
+    now = orig(body[i]) if i < len(body) else "<end of function>"
+    was = doc[i] if i < len(doc) else "<end of function>"
+    raise core.AnchorMissing(f"{rel}:{ln}: `{text}` - canonical statement {i + 1} of {fn} is now `{now}`, documented `{was}` "
+                             f"({len(body)} statements now, {len(doc)} documented)")
 
 
 def _blur_factor(body, back=None):
@@ -569,6 +605,10 @@ def translate(src):
             sigs[key], bodies[key] = v
         else:
             sigs[key], bodies[key] = DOC_SIG[key], DOC_BODY[key]      # documented value, the anchor is recorded as missing
+    for key, rel, fn in FUNCS:      # work list round 7, item 5: say WHERE a body left its documented form (only when it did)
+        if key in backs and (bodies[key] != DOC_BODY[key] or sigs[key] != DOC_SIG[key]):
+            src.anchor(f"{fn if key != 'cryomap_rotate' else 'cryomap.rotate'}:as-documented",
+                       lambda key=key, rel=rel, fn=fn: _explain(src, rel, fn, key, sigs[key], bodies[key], backs[key]))
     bf = src.anchor("preprocess_params:blur_factor", lambda: str(_blur_factor(bodies["preprocess_params"], backs["preprocess_params"])))
     fr = Fraction(bf) if bf is not None else Fraction(DOC_BLUR)
 
@@ -900,8 +940,8 @@ def _forms(rng, case):
         f["radii"] = rng.choice(["tuple", "array"] + (["scalar", "npint"] if len(set(rr)) == 1 and rr[0][1] == 1 else []))
     if case.get("radius") is not None and rng.random() < 0.25:
         f["radius"] = "np"
-    if case.get("height") is not None and rng.random() < 0.25:
-        f["height"] = "np"
+    if case.get("height") is not None and rng.random() < 0.45:
+        f["height"] = rng.choice(["np", "float", "float", "npfloat", "half"])
     if case["gauss"][0] != 0 and rng.random() < 0.3:
         f["gaussian"] = "int" if case["gauss"][0] % case["gauss"][1] == 0 and rng.random() < 0.5 else "np"
     if kind in ("cylinder", "ellipsoid", "e_shell") and rng.random() < 0.3:
@@ -1169,6 +1209,13 @@ def _algebra_case(rng, tier):
     for m in masks:
         if "bits" in m and rng.random() < 0.2:
             m["layout"] = rng.choice(["F", "view"])
+    if flavour != "ctor" and rng.random() < 0.18:      # audit 3: mask operands given as PATHS of MRC files (float32 / int8 are the dtypes MRC stores)
+        for m in masks:
+            if rng.random() < 0.6:
+                m["dtype"] = "float32" if flavour == "soft" or rng.random() < 0.6 else "int8"
+                m["bits"] = [f2b(float(np.float32(b2f(b)))) for b in m["bits"]]
+                m.pop("layout", None)
+                m["path"] = rng.choice(PATH_EXTS)
     return dict(t="algebra", fn=rng.choice(FNS), shape=shape, flavour=flavour, masks=masks, explicit_none=rng.random() < 0.3,
                 container="tuple" if rng.random() < 0.2 else "list")
 
@@ -1298,10 +1345,12 @@ def shrink(case):
                 yield dict(case, shape=new, masks=[cut(m) for m in ms])
         if case.get("container") == "tuple":
             yield dict(case, container="list")
+        if any(m.get("path") for m in ms):
+            yield dict(case, masks=[{k: v for k, v in m.items() if k != "path"} for m in ms])
         if any(m.get("layout") for m in ms):
             yield dict(case, masks=[{k: v for k, v in m.items() if k != "layout"} for m in ms])
         for i, m in enumerate(ms):
-            if m["dtype"] != "float64":
+            if m["dtype"] != "float64" and not m.get("path"):
                 yield dict(case, masks=ms[:i] + [dict(m, dtype="float64")] + ms[i + 1:])
         return
     if case["t"] == "name":
@@ -1384,6 +1433,12 @@ def _num_form(x, form):
         return np.int64(x) if isinstance(x, int) else np.float64(x)
     if form == "int":
         return int(x)
+    if form == "float":                  # H3 / audit 3: a height written 6.0 or computed as 0.5 * box
+        return float(x)
+    if form == "npfloat":
+        return np.float64(x)
+    if form == "half":                   # a non-integer height h + 0.5: the statement's floor(h/2) is unchanged, floor((h + 1/2)/2) = floor(h/2)
+        return float(x) + 0.5            # (Lean: half_height_of_fractional)
     return x
 
 
@@ -1490,6 +1545,44 @@ def _bits(a):
     return [f2b(x) for x in np.asarray(a, dtype=np.float64).ravel()]
 
 
+PATH_EXTS = [".mrc", ".mrc", ".rec", ".st", ".ali", ".mrc.2"]      # the suffixes cryomap.read sends to mrcfile
+
+
+def _operands(masks, specs):
+    """the operands as the caller passes them: arrays, or (spec field "path" = file suffix) the PATH of an MRC file holding the mask - the
+    documented second form of a mask operand (cryomap.read: str -> mrcfile.open(...).data transposed (2,1,0)).  The file is written with
+    mrcfile directly (not with the library), data transposed so that reading gives the intended array back."""
+    tmp, ops = None, []
+    for i, (a, m) in enumerate(zip(masks, specs)):
+        if m.get("path"):
+            import tempfile, mrcfile
+            if tmp is None:
+                tmp = tempfile.mkdtemp(prefix="c13_")
+            p = os.path.join(tmp, f"mask{i}{m['path']}")
+            with mrcfile.new(p, overwrite=True) as f:
+                f.set_data(np.ascontiguousarray(a.transpose(2, 1, 0)))
+            ops.append(p)
+        else:
+            ops.append(a)
+    return ops, tmp
+
+
+def _files_changed(ops, masks):
+    """'never modify their inputs' for file operands: the file still holds the mask"""
+    out = []
+    for i, (o, a) in enumerate(zip(ops, masks)):
+        if isinstance(o, str):
+            try:
+                import mrcfile
+                with mrcfile.open(o, permissive=True) as f:
+                    ok = np.array_equal(np.asarray(f.data).transpose(2, 1, 0), a)
+            except Exception:
+                ok = False
+            if not ok:
+                out.append(f"file{i}")
+    return out
+
+
 def _call_algebra(cm, fn, lst, masks, explicit_none=False):
     """one call; caller-owned list and arrays are compared before/after"""
     before = [m.copy() for m in masks]
@@ -1573,7 +1666,17 @@ def run_impl(case):
     if case["t"] == "algebra":
         shp = case["shape"]
         masks = [_build_mask(cm, m, shp) for m in case["masks"]]
-        return _call_algebra(cm, case["fn"], tuple(masks) if case.get("container") == "tuple" else list(masks), masks, case.get("explicit_none", False))[0]
+        ops, tmp = _operands(masks, case["masks"])
+        try:
+            obs = _call_algebra(cm, case["fn"], tuple(ops) if case.get("container") == "tuple" else list(ops), masks, case.get("explicit_none", False))[0]
+            changed = _files_changed(ops, masks)
+            if changed:
+                obs["mutated"] = list(obs.get("mutated") or []) + changed
+            return obs
+        finally:
+            if tmp is not None:
+                import shutil
+                shutil.rmtree(tmp, ignore_errors=True)
     if case["t"] == "session":
         return _run_session(cm, case)
     raise ValueError(case["t"])
@@ -2011,6 +2114,7 @@ def stats(case, obs, resps):
         st["masks_from_constructors"] = sum(1 for m in case["masks"] if "ctor" in m)
         st["output_name"] = "explicit None" if case.get("explicit_none") else "omitted"
         st["mask_list_container"] = case.get("container", "list")
+        st["mask_operand_kind"] = sorted({("path " + m["path"]) if m.get("path") else "array" for m in case["masks"]}) or ["none"]
         st["mask_memory_layout"] = sorted({m.get("layout", "C") for m in case["masks"] if "bits" in m}) or ["constructor"]
         return st
     if case["t"] == "name":
